@@ -22,6 +22,11 @@ THEOREMS = [_P + n for n in [
     "read_conservation", "read_conservation_run", "read_conservation_init", "results_prefix_of_stream",
     "read_contracts", "read_contracts_delim", "read_contracts_regex", "no_result_over_max",
     "unsat_only_with_max", "unsat_closes", "unsat_closes_on_event", "close_closed",
+    # Spec.contractOk on the returned bytes: position level, state level, step level, all runs
+    "read_contracts_until", "read_contracts_result", "read_contracts_step", "read_contracts_run", "issued_of_ret",
+    "stdR_local", "stdR_stable",
+    # arrival independence: machine = strict batch reader for every segmentation; the first statement is refuted
+    "arrival_batch", "arrival_independent_partial", "arrival_independent_refuted", "arrival_schedule",
 ]]
 TRUSTED = [
     "core/faketransport.FakeStream + core/vloop (scripted transport, virtual loop): the model's transport part mirrors them",
@@ -31,8 +36,9 @@ TRUSTED = [
 ASSUMPTIONS = [
     "no future is cancelled by the caller and no SSL layer (SSLIOStream buffering is not modelled)",
     "memoryview aliasing of a read_into buffer is not expressible; the model holds the filled prefix only",
-    "regex patterns other than the two fixed ones are a parameter R of the theorems (hypothesis: match end <= buffer length); "
-    "arrival independence additionally needs the first match to be prefix-stable (proved for \\r?\\n\\r?\\n)",
+    "regex patterns other than the two fixed ones are a parameter R of the theorems; the Spec.contractOk theorems need RLocal "
+    "(match end inside the buffer, match determined by the bytes up to its end), arrival independence additionally RStable "
+    "(first match prefix-stable); both proved for the two fixed patterns (stdR_local, stdR_stable)",
     "IOLoop ERROR events are never delivered by the fake transport (close causes are EOF, read/write errors, local close)",
 ]
 RULE = ("op sequences (<= ~24 ops, <= 12 reads) over a byte stream (<= 4 KiB, alphabet rich in delimiters) delivered in "
@@ -42,11 +48,24 @@ EXHAUSTIVE = {"quick": False, "thorough": False}
 CLAUSES = {
     "each read returns data matching its contract":
         "read_contracts (length), read_contracts_delim (first occurrence, <= max), read_contracts_regex (engine's first match, <= max) "
-        "on the position taken from the buffer; tie only: Spec.contractOk on every returned result (read_contracts_goal)",
+        "on the position taken from the buffer; read_contracts_until (the former read_contracts_goal) + read_contracts_result "
+        "(Spec.contractOk on the outcome _finish_read builds, every request kind) + read_contracts_step + read_contracts_run "
+        "(every result of every run belongs to the request registered under its future id and meets Spec.contractOk; "
+        "ids unique) + issued_of_ret (the id is the future the call returned); hypothesis on the regex engine: RLocal "
+        "(stdR_local)",
     "concatenation of all results is a prefix of the stream, nothing lost/duplicated/reordered":
         "read_conservation (step), read_conservation_run / read_conservation_init (all op sequences), results_prefix_of_stream",
-    "any pattern of short reads": "the conservation theorems quantify over every arrival pattern (feeds are ops); "
-                                  "tie only: arrival_independent_goal (same results for different segmentations)",
+    "any pattern of short reads": "the conservation and contract theorems quantify over every arrival pattern (feeds are ops); "
+                                  "arrival_batch (stream in the transport in ANY segmentation, then non-partial read_bytes / "
+                                  "read_until / read_until_regex requests back to back: results = the strict batch reader "
+                                  "`batch stream requests`, provided chunk > 0, stream <= max_buffer_size, no request hits "
+                                  "max_bytes) + arrival_independent_partial (two segmentations, same results); "
+                                  "arrival_independent_refuted: the unrestricted statement is false (partial reads return "
+                                  "what has arrived); hypotheses on the regex engine: RStable, RLocal (stdR_stable, stdR_local); "
+                                  "arrival_schedule: ANY interleaving of feeds and stable requests (issued up front, re-issued "
+                                  "on completion, or later): the k-th accepted request returns batch[k] of the WHOLE stream "
+                                  "(results so far = prefix of the batch results); tie only: schedules containing EOF / errors / "
+                                  "close / read_into / read_until_close",
     "delimiter not found within max_bytes closes the stream instead of returning more":
         "no_result_over_max + unsat_closes + unsat_closes_on_event + unsat_only_with_max + close_closed",
 }
